@@ -52,6 +52,7 @@ namespace hs
         bool traits        = true;
         bool comp          = true;
         bool grows         = false; // source can provide more than one block
+        bool unbounded     = false; // ... and never runs dry by itself (only the upstream can say no)
         bool faultable     = true;  // upstream calls go through SimHeap::request (faults can be injected)
         bool leak_tracked  = false; // allocator_traits level leak accounting on destruction
         bool movable       = true;
